@@ -475,7 +475,12 @@ fn check_faulted(
         final_spec: Some(o), ..
       } => (Some(o.clone()), true),
       Fault::ExternalOther(o) => (Some(o.clone()), false),
-      Fault::Redirect(o) => (Some(o.clone()), false),
+      // a redirect to an already loaded specifier can still re-request it:
+      // known redirects are applied one hop at a time, so a target that is
+      // itself a redirect source (answered under another final specifier)
+      // has no entry of its own and is loaded again, in the new requester's
+      // context (attribute, dynamic branch)
+      Fault::Redirect(o) => (Some(o.clone()), true),
       _ => (None, false),
     };
     if let Some(o) = target {
@@ -583,7 +588,10 @@ fn check_faulted(
               if plan.len() == 1 { kinds_at(None) } else { "combination".into() }
             ),
             format!("{}: {:?} -> {:?}", spec, b, n),
-            w(json!({})),
+            w(json!({
+              "base_log": base.log.iter().map(|e| format!("{} {} -> {}", e.cache_setting, e.specifier, e.answer.chars().take(70).collect::<String>())).collect::<Vec<_>>(),
+              "faulted_log": faulted.log.iter().map(|e| format!("{} {} -> {}", e.cache_setting, e.specifier, e.answer.chars().take(70).collect::<String>())).collect::<Vec<_>>(),
+            })),
           );
         }
         _ => {}
